@@ -16,12 +16,14 @@ import (
 	abci "github.com/cometbft/cometbft/abci/types"
 	sdk "github.com/cosmos/cosmos-sdk/types"
 	authtypes "github.com/cosmos/cosmos-sdk/x/auth/types"
+	govtypes "github.com/cosmos/cosmos-sdk/x/gov/types"
 	distrtypes "github.com/cosmos/cosmos-sdk/x/distribution/types"
 	"github.com/cosmos/cosmos-sdk/x/mint"
 	minttypes "github.com/cosmos/cosmos-sdk/x/mint/types"
 
 	"github.com/kava-labs/kava/app"
 	"github.com/kava-labs/kava/x/community"
+	communitykeeper "github.com/kava-labs/kava/x/community/keeper"
 	communitytypes "github.com/kava-labs/kava/x/community/types"
 	kavadisttypes "github.com/kava-labs/kava/x/kavadist/types"
 
@@ -250,12 +252,9 @@ func runFull(out *c.Out, r *c.Rng, nSeq int) {
 			if r.Chance(10) {
 				must(ck.FundCommunityPool(ctx, w.user, sdk.NewCoins(sdk.NewInt64Coin("ukava", r.Range(1, 100)))))
 			}
-			if r.Chance(6) || (zeroRun >= 2 && r.Chance(25)) { // params update of the staking rate (also zero ↔ non-zero)
+			if b == 0 && r.Chance(6) { // a params update before the first block of the history (keeper route)
 				p, _ := ck.GetParams(ctx)
 				nr, _ := rate(r)
-				if !p.StakingRewardsPerSecond.IsZero() && r.Chance(40) {
-					nr = bi(0)
-				}
 				p.StakingRewardsPerSecond = dec(nr)
 				ck.SetParams(ctx, p)
 			}
@@ -303,7 +302,7 @@ func runFull(out *c.Out, r *c.Rng, nSeq int) {
 			if fired {
 				poolIn.Add(poolIn, inflow.BigInt())
 			}
-			stakeLog = append(stakeLog, fmt.Sprintf("%d:%s:%s", now, post.fields[1], new(big.Int).Sub(poolIn, post.pool)))
+			stakeLog = append(stakeLog, fmt.Sprintf("%d:%s:%s:%s", now, post.fields[1], new(big.Int).Sub(poolIn, post.pool), poolIn))
 			if post.fields[1] == "0" {
 				zeroRun++
 			} else {
@@ -317,11 +316,147 @@ func runFull(out *c.Out, r *c.Rng, nSeq int) {
 				zeroRun = 0
 			}
 			refT = fmt.Sprint(now)
+			// ---- a community params update IN this block: messages execute after the begin blocker of their
+			// block, so the new rate is first in force for the interval that ends with the NEXT block
+			if r.Chance(14) || (zeroRun >= 2 && r.Chance(25)) {
+				var futureT *int64
+				if b+1 < nb {
+					v := pickT(b + 1)
+					futureT = &v
+				}
+				kind, setUpgrade := w.paramsUpdate(out, r, bctx, futureT)
+				switches["upd:"+kind] = true
+				if setUpgrade {
+					upgrade = futureT // from now on a switch-over is configured for this history
+				}
+			}
 		}
 		if len(stakeLog) > 0 {
 			out.Case("stakehist "+strings.Join(c.SortedKeys(switches), ","), "c19.stakehist", ref0, e0, strings.Join(stakeLog, ";"), "=>", "-")
 		}
 	})
+}
+
+// paramsUpdate changes the community params inside a block (ctx carries the block's time; its begin blocker
+// has run).  Most updates go through the REAL governance message: MsgUpdateParams handled by the community msg
+// server with the x/gov module account as authority (baseapp semantics: cache context, written only on success);
+// the rest through the keeper.  Some messages carry a wrong authority or invalid params and must fail and change
+// nothing.  One c19.paramsmsg case per update: observation before, the message, result class, observation
+// after, and the observation the keeper route (ck.SetParams on a discarded branch of the same state) gives.
+// Returns the kind of update and whether it configured a switch-over time where none was pending.
+func (w *world) paramsUpdate(out *c.Out, r *c.Rng, ctx sdk.Context, futureT *int64) (kind string, setUpgrade bool) {
+	ck := w.tApp.GetCommunityKeeper()
+	cur, _ := ck.GetParams(ctx)
+	np := cur
+	curRate := cur.StakingRewardsPerSecond.BigInt()
+	newRate := func(pred func(x *big.Int) bool) *big.Int {
+		for i := 0; i < 64; i++ {
+			if x, _ := rate(r); pred(x) {
+				return x
+			}
+		}
+		return new(big.Int).Add(curRate, P)
+	}
+	switch k := r.Intn(10); {
+	case curRate.Sign() == 0 && k < 6:
+		kind = "rate-from-zero"
+		np.StakingRewardsPerSecond = dec(newRate(func(x *big.Int) bool { return x.Sign() > 0 }))
+	case k == 0 || k == 1:
+		kind = "rate-to-zero"
+		np.StakingRewardsPerSecond = dec(bi(0))
+	case k == 2 || k == 3:
+		kind = "rate-up"
+		np.StakingRewardsPerSecond = dec(newRate(func(x *big.Int) bool { return x.Cmp(curRate) > 0 }))
+	case k == 4 || k == 5:
+		kind = "rate-down"
+		switch r.Intn(3) {
+		case 0:
+			np.StakingRewardsPerSecond = dec(new(big.Int).Sub(curRate, bi(1))) // one ulp less
+		case 1:
+			np.StakingRewardsPerSecond = dec(new(big.Int).Rsh(curRate, 1))
+		default:
+			np.StakingRewardsPerSecond = dec(r.BigBelow(curRate))
+		}
+	case k == 6: // the rate stays, the rate the switch-over will copy changes
+		kind = "upgrade-rate"
+		x, _ := rate(r)
+		np.UpgradeTimeSetStakingRewardsPerSecond = dec(x)
+	case k == 7: // the rate stays, the switch-over time is moved / cleared / set
+		switch {
+		case !cur.UpgradeTimeDisableInflation.IsZero() && (futureT == nil || r.Chance(30)):
+			kind = "upgrade-time-cleared"
+			np.UpgradeTimeDisableInflation = communitytypes.Params{}.UpgradeTimeDisableInflation
+		case futureT != nil:
+			kind = "upgrade-time-moved"
+			if cur.UpgradeTimeDisableInflation.IsZero() {
+				kind = "upgrade-time-set"
+				setUpgrade = true
+			}
+			np.UpgradeTimeDisableInflation = tm(*futureT)
+		default:
+			kind = "same"
+		}
+	case k == 8: // everything at once
+		kind = "rate-and-upgrade-rate"
+		np.StakingRewardsPerSecond = dec(newRate(func(x *big.Int) bool { return x.Cmp(curRate) != 0 }))
+		x, _ := rate(r)
+		np.UpgradeTimeSetStakingRewardsPerSecond = dec(x)
+	default: // the very same params again
+		kind = "same"
+	}
+	route, auth, authOK := "msg", authtypes.NewModuleAddress(govtypes.ModuleName), true
+	switch q := r.Intn(20); {
+	case q < 5:
+		route = "keeper"
+	case q < 8: // not the governance account: the user, another module account, the community account itself
+		authOK = false
+		auth = []sdk.AccAddress{w.user, authtypes.NewModuleAddress(authtypes.FeeCollectorName), authtypes.NewModuleAddress(communitytypes.ModuleAccountName)}[r.Intn(3)]
+		kind += "/bad-authority"
+	case q < 10: // right authority, params that Validate rejects
+		if r.Chance(50) {
+			np.StakingRewardsPerSecond = dec(big.NewInt(-r.Range(1, 1_000_000_000)))
+		} else {
+			np.UpgradeTimeSetStakingRewardsPerSecond = dec(big.NewInt(-r.Range(1, 1_000_000_000)))
+		}
+		kind += "/invalid"
+	}
+	if !authOK || strings.HasSuffix(kind, "/invalid") {
+		setUpgrade = false
+	}
+	pre := w.observe(ctx)
+	// what the keeper route gives on the same state (discarded)
+	var viaKeeper fullObs
+	{
+		cx, _ := ctx.CacheContext()
+		c.Recover(func() { ck.SetParams(cx, np) })
+		viaKeeper = w.observe(cx)
+	}
+	cls := kapp.OK
+	if route == "keeper" {
+		ck.SetParams(ctx, np)
+	} else {
+		var err error
+		cls, err = kapp.Exec(ctx, func(cx sdk.Context) error {
+			_, e := communitykeeper.NewMsgServerImpl(ck).UpdateParams(sdk.WrapSDKContext(cx), &communitytypes.MsgUpdateParams{Authority: auth.String(), Params: np})
+			return e
+		})
+		if cls == kapp.Panic {
+			out.Note("params-msg-panic: " + firstWords(err.Error(), 8))
+		}
+	}
+	post := w.observe(ctx)
+	upS := "none"
+	if !np.UpgradeTimeDisableInflation.IsZero() {
+		upS = fmt.Sprint(np.UpgradeTimeDisableInflation.UnixNano())
+	}
+	fields := []string{fmt.Sprint(ctx.BlockTime().UnixNano()), route, c.B(authOK), upS,
+		np.StakingRewardsPerSecond.BigInt().String(), np.UpgradeTimeSetStakingRewardsPerSecond.BigInt().String()}
+	fields = append(fields, pre.fields...)
+	fields = append(fields, "=>", string(cls))
+	fields = append(fields, post.fields...)
+	fields = append(fields, viaKeeper.fields...)
+	out.Case(fmt.Sprintf("%s %s init=%v err=%v", route, kind, pre.fields[7] != "none", pre.fields[8] != "0"), "c19.paramsmsg", fields...)
+	return kind, setUpgrade && cls == kapp.OK
 }
 
 // dryRunMintProvision: what x/mint's begin blocker provisions in this block, measured in a discarded
